@@ -4,7 +4,7 @@ together with the buffers they modify in place.
 Kernels that are `cdef` (count_triangles_from_dag, compute_core / MinHeap) are reached through their one-line Python
 entry point with the pre-processing functions of that module (module globals of the extension module) replaced by the
 identity for the duration of the call, so that the arrays given here are the arrays the kernel sees. Oracle answers
-(np.argsort in push_pagerank, libc rand() in optimize_refine_core) are recorded. Nothing in the repository is changed;
+(np.argsort in push_pagerank) are recorded. Nothing in the repository is changed;
 every patch is undone before the function returns."""
 import contextlib
 import ctypes
@@ -157,22 +157,19 @@ def _rand_stream(seed, k):
 
 
 def leiden_refine(a):
-    """optimize_refine_core with the libc rand() stream fixed by srand(seed): the first K values are recorded, the
-    generator is re-seeded, the kernel runs; the value rand() returns next locates how many draws the kernel made."""
+    """optimize_refine_core as compiled. Since fix 0f5490bf the kernel carries its own generator (state 1 on entry,
+    draw*1103515245+12345 mod 2^32, value draw >> 16): nothing to record, the model evaluates the same stream
+    (Safety2.leiden_draw). libc's generator is re-seeded differently before each of two runs: the result must not depend on it."""
     from sknetwork.clustering.leiden_core import optimize_refine_core
-    seed, K = int(a.get('seed', 1)), int(a.get('K', 600))
-    stream = _rand_stream(seed, K + 3)
-    check = _rand_stream(seed, 8)
-    labels, lr = _i(a['labels']), _i(a['labels_refined'])
-    ocw, icw, cw = _f(a['ocw']), _f(a['icw']), _f(a['cw'])
-    _libc.srand(ctypes.c_uint(seed))
-    r = optimize_refine_core(labels, lr, _i(a['indices']), _i(a['indptr']), _f(a['data']), _f(a['ow']), _f(a['iw']), ocw, icw,
-                             cw, _f(a['self_loops']), F32(a['resolution']))
-    nxt = [int(_libc.rand()) for _ in range(3)]
-    draws = None
-    for p in range(K + 1):
-        if stream[p:p + 3] == nxt:
-            draws = p
-            break
-    return {'ret': _il(r), 'lr_after': _il(lr), 'labels_after': _il(labels), 'ocw': _fl(ocw), 'icw': _fl(icw), 'cw': _fl(cw),
-            'draws': draws, 'stream': stream[:(draws if draws is not None else K) + 2], 'reseed_ok': check == stream[:8]}
+
+    def once(seed):
+        _rand_stream(seed, 1)
+        labels, lr = _i(a['labels']), _i(a['labels_refined'])
+        ocw, icw, cw = _f(a['ocw']), _f(a['icw']), _f(a['cw'])
+        r = optimize_refine_core(labels, lr, _i(a['indices']), _i(a['indptr']), _f(a['data']), _f(a['ow']), _f(a['iw']), ocw, icw,
+                                 cw, _f(a['self_loops']), F32(a['resolution']))
+        return {'ret': _il(r), 'lr_after': _il(lr), 'labels_after': _il(labels), 'ocw': _fl(ocw), 'icw': _fl(icw), 'cw': _fl(cw)}
+    first = once(int(a.get('seed', 1)))
+    second = once(int(a.get('seed', 1)) + 7919)
+    first['libc_independent'] = (first == second)
+    return first
